@@ -1,10 +1,12 @@
 --------------------------- MODULE Trace_HopShutdown ---------------------------
 (* Trace validation for C16: calls recorded from concurrent programs on real tubes.            *)
 (*   close      returns, promptly (it only changes state and queues a FIN)                       *)
-(*   stop       returns within the muxer's fallback timers (1 s + 1 s) plus slack                *)
+(*   stop       returns within the muxer's fallback timers (1 s + 1 s) plus slack; whichever      *)
+(*              caller it returns to, the shutdown is complete (the transport is closed)          *)
 (*   wait       WaitForClose returns (bounded by the run: 12 s)                                  *)
 (*   write/read return                                                                           *)
-(*   postclose  after a completed local close a write fails and reads end with end-of-stream      *)
+(*   postclose  after a completed local close a write fails and reads return the buffered data    *)
+(*              (on a faithful network: everything the peer wrote) and then end-of-stream          *)
 (*   leak       no goroutine of the tubes package is left after every muxer was stopped           *)
 (* The corresponding design-level properties are the termination properties of TubeClose.tla     *)
 (* and the deadlock-freedom of HopTubes.tla's FIN state machine.                                  *)
@@ -15,10 +17,10 @@ Ev == Trace[l]
 Good(e) ==
     CASE e.ev = "call" ->
            CASE e.op = "close" -> e.ret = "yes" /\ e.ms <= 3000
-             [] e.op \in {"stop", "finalstop"} -> e.ret = "yes" /\ e.ms <= 8000
+             [] e.op \in {"stop", "finalstop"} -> e.ret = "yes" /\ e.ms <= 8000 /\ e.tclosed = "yes"
              [] e.op = "wait" -> e.ret = "yes"
              [] e.op \in {"write", "read", "create"} -> e.ret = "yes"
-             [] e.op = "postclose" -> e.wfail = "yes" /\ e.reof = "yes"
+             [] e.op = "postclose" -> e.wfail = "yes" /\ e.reof = "yes" /\ e.dataok = "yes"
              [] OTHER -> TRUE
       [] e.ev = "leak"  -> e.goroutines = 0
       [] e.ev = "crash" -> FALSE
